@@ -181,9 +181,20 @@ def r49(ctx: Ctx) -> RuleReport:
                     '' if norm(v) == attr else f'`{norm(n)[:60]}`: the marker no longer records what the text said (~e.7,2 comes back as ~e.2,7; ~2,2 as ~2)')
     # writer side agrees: ~ prefix indices joined by commas
     w = ctx.repo.func('penman.surface', 'AlignmentMarker.__str__')
-    src = norm(w.node)
-    rep.add('penman.surface:AlignmentMarker.__str__: writes ~, the prefix, the indices joined by commas', w.loc(),
-            'ok' if "'~{}{}'.format(self.prefix or ''" in src and "','.join(map(str, self.indices))" in src else 'info')
+    joins = [n for n in walk_local(w.node) if isinstance(n, ast.Call) and isinstance(n.func, ast.Attribute) and n.func.attr == 'join' and n.args
+             and 'indices' in norm(n.args[0])]
+    k5 = 'penman.surface:AlignmentMarker.__str__: writes ~, the prefix, the indices joined by commas'
+    if not joins:
+        rep.undecided(k5, w.loc(), 'no <separator>.join(... indices ...)')
+    for j in joins:
+        oks, sep = try_fold(j.func.value)
+        if oks and sep == ',':
+            rep.ok(k5, w.loc(j))
+        elif oks:
+            rep.violation(k5, w.loc(j), f'the indices are joined with {sep!r}: the lexical grammar of an alignment is ~[prefix.]digits(,digits)*, so ~e.1,2 is written as '
+                          f'{"~e.1" + str(sep) + "2"!r}, which is read back as another alignment (or not as one token)')
+        else:
+            rep.undecided(k5, w.loc(j), norm(j.func.value))
     return rep
 
 
@@ -1989,7 +2000,7 @@ def r88(ctx: Ctx) -> RuleReport:
     from ..resolve import expand
     rep = RuleReport('R88', r88.title, floor=8)
     # (a) constructors of Graph and Tree
-    for mod, cls in (('penman.graph', 'Graph'), ('penman.tree', 'Tree')):
+    for mod, cls in (('penman.graph', 'Graph'), ('penman.tree', 'Tree'), ('penman.codec', 'PENMANCodec')):
         init = ctx.repo.cls(mod, cls).find_method('__init__')
         cfg = CFG(init.node)
         a = init.node.args
@@ -2009,7 +2020,32 @@ def r88(ctx: Ctx) -> RuleReport:
                 rep.violation(key, init.loc(n), f'`{norm(n)[:60]}` does not use the parameter `{attr}`: whatever the caller passes is ignored')
                 continue
             from_param = cfg.entry in rd.get(nid, {}).get(attr, frozenset())
-            if from_param:
+            # ... and in particular when the caller did pass something (walk under `param is None` = False, `not param` = False)
+            given = {f'{attr} is None': False, f'{attr} is not None': True, f'not {attr}': False, attr: True, f'{attr} == None': False}
+            seen_, stack_, kept = set(), [cfg.entry], False
+            while stack_ and from_param:
+                x_ = stack_.pop()
+                if x_ in seen_:
+                    continue
+                seen_.add(x_)
+                if x_ == nid:
+                    kept = True
+                    break
+                node_ = cfg.nodes[x_]
+                if x_ != cfg.entry and node_.kind in ('stmt', 'for') and node_.ast is not None and attr in assigned_names(node_.ast):
+                    continue
+                for m_, lab_ in cfg.succ[x_]:
+                    if node_.kind == 'cond':
+                        src_ = norm(node_.ast)
+                        if src_ in given and (lab_ == 'T') != given[src_]:
+                            continue
+                        if isinstance(node_.ast, ast.UnaryOp):
+                            pass
+                    stack_.append(m_)
+            if from_param and not kept:
+                rep.violation(key, init.loc(n), f'when the caller passes a `{attr}`, it is replaced before `{norm(n)[:40]}` (the parameter only survives when it is None / empty): '
+                              f'the object is built with the default instead of what was asked for')
+            elif from_param:
                 rep.ok(key, init.loc(n))
             else:
                 defs = sorted(rd.get(nid, {}).get(attr, ()))
@@ -2156,6 +2192,53 @@ def r89(ctx: Ctx) -> RuleReport:
             rep.violation(key, fi.loc(), '; '.join(real) + ': every caller that relies on the documented call (the command-line tool and the codec included) now gets different behaviour')
         elif problems:
             rep.undecided(key, fi.loc(), 'a default is written as an expression that does not fold to a constant')
+        else:
+            rep.ok(key, fi.loc())
+    return rep
+
+
+# ---------------------------------------------------------------------------------------------
+@rule('R96', 'a callable annotated with a non-optional result type returns a value on every normal exit (never None by falling off the end or by `return None`)')
+def r96(ctx: Ctx) -> RuleReport:
+    rep = RuleReport('R96', r96.title, floor=40)
+    for fi in ctx.repo.all_functions():
+        ann = fi.node.returns
+        if ann is None:
+            continue
+        a = norm(ann)
+        if a in ('None', "'None'") or 'Optional' in a or 'None' in a or a.startswith('Iterator') or a.startswith('Generator') or a in ('Any', 'NoReturn', 'typing.Any'):
+            continue
+        if any(isinstance(n, (ast.Yield, ast.YieldFrom)) for n in walk_local(fi.node)):
+            continue
+        if fi.node.body and all(isinstance(s, (ast.Expr, ast.Pass)) or (isinstance(s, ast.Raise)) for s in fi.node.body):
+            continue                            # abstract / stub
+        try:
+            cfg = CFG(fi.node)
+        except AnalysisError:
+            continue
+        key = f'{fi.module.name}:{fi.qualname}: every normal exit returns a {a[:30]}'
+        bad = None
+        for n, lab in cfg.pred.get(cfg.exit, []) if hasattr(cfg, 'pred') else []:
+            pass
+        preds = [n for n in range(len(cfg.nodes)) if any(m == cfg.exit for m, _ in cfg.succ[n])]
+        reach = cfg.reachable_from([cfg.entry])
+        for n in preds:
+            if n not in reach:
+                continue
+            nd = cfg.nodes[n]
+            if nd.kind == 'stmt' and isinstance(nd.ast, ast.Return):
+                v = nd.ast.value
+                if v is None or (isinstance(v, ast.Constant) and v.value is None):
+                    bad = (nd.ast, f'`{norm(nd.ast)}`')
+                    break
+            else:
+                # falls off the end (unless the last statement never returns: sys.exit and friends)
+                if nd.kind == 'stmt' and isinstance(nd.ast, ast.Expr) and isinstance(nd.ast.value, ast.Call) and norm(nd.ast.value.func) in ('sys.exit', 'exit', 'quit', 'os._exit'):
+                    continue
+                bad = (nd.ast if nd.ast is not None else fi.node, 'the end of the function is reached without a return')
+                break
+        if bad:
+            rep.violation(key, fi.loc(bad[0]), f'{bad[1]}: the caller, who is promised a {a[:40]}, receives None (printed as "None", iterated, or indexed further on)')
         else:
             rep.ok(key, fi.loc())
     return rep
